@@ -184,3 +184,16 @@ package registration
 //@   ensures[C04 response] err == nil && ret.EncryptedNodeCredentials != nil ==> ret.EncryptedNodeCredentialsSignature != nil
 //@   |   && len(ret.ServerEncryptionPublicKeyBytes) == 32
 //@   modifies StNodeInfo, StToken, nosharedappend
+
+// ---------------------------------------------------------------- C06: a token enrolls at most one node (two-call lemma)
+//
+// Two fetches that present the same activation token (same token nonce, hence the same storage id), neither
+// carrying wrapped registration info: if the first is answered with credentials the second is not.
+//@ func registration.lemmaTokenSingleUse
+//@   let nonceA = decField("types.FetchNodeCredentialsInfo", "Nonce", reqA.Bundle)
+//@   let nonceB = decField("types.FetchNodeCredentialsInfo", "Nonce", reqB.Bundle)
+//@   requires[sametoken] reqA != nil && reqB != nil && nonceA == nonceB && len(nonceA) != 32 && cap(opt) == len(opt)
+//@   requires[tokenflow] len(decField("types.FetchNodeCredentialsInfo", "WrappedRegistrationInfo", reqA.Bundle)) == 0 && len(reqA.RewrappedWrappingRegistrationFlowInfo) == 0
+//@   |   && len(decField("types.FetchNodeCredentialsInfo", "WrappedRegistrationInfo", reqB.Bundle)) == 0 && len(reqB.RewrappedWrappingRegistrationFlowInfo) == 0
+//@   ensures[C06 once] reliable() && ea == nil && ra.EncryptedNodeCredentials != nil ==> eb != nil || rb.EncryptedNodeCredentials == nil
+//@   modifies StNodeInfo, StToken
